@@ -221,7 +221,7 @@ def project(ob: dict, depth: int, layout: str, clients: list[str], unknown: set[
     return {
         "generated": sorted(probes),
         "needs": {c: (codes_of(probes[c]["needs"], unknown) if c in probes else []) for c in clients},
-        "registry": {pkg2id.get(k, k): v for k, v in ob["registry"].items()},
+        "registry": {pkg2id.get(k, "?" + k): v for k, v in ob["registry"].items()},
         "aliases": codes_of(ob["aliases"], unknown) if depth >= 1 else [],
         "priv": {c: (codes_of(probes[c]["visible"], unknown) if (depth == 0 and c in probes) else []) for c in clients},
     }
@@ -246,7 +246,7 @@ def post_of(ob: dict, pre: dict, depth: int, layout: str, clients: list[str]) ->
         "served": sorted(p["client"] for p in ps if set(p["needs"]) <= set(p["visible"])),
         "declared": declared,
         "regfile": bool(ob["regfile"]),
-        "registry": {pkg2id.get(k, k): v for k, v in ob["registry"].items()},
+        "registry": {pkg2id.get(k, "?" + k): v for k, v in ob["registry"].items()},
     }
 
 
